@@ -299,7 +299,7 @@ theorem stale_forever :
     cached manifests only from below. -/
 theorem remote_manifest_outlives_day :
     let s := (C05.reach (sysCfg rawEx envEx) t0Ex
-      [.ingest "c9" (1700001000000000000 + 315360000000000000), .adv 172800000000000, .tick]).s
+      [.ingest "c9" (1700001000000000000 + 315360000000000000) false, .adv 172800000000000, .tick]).s
     s.shards = [] ∧ s.lastCleanup = s.now ∧
     s.cache.map (fun x => decide (x.2 > s.now + envEx.wallOff + dayNs)) = [true] ∧ s.plans.map (·.1) = ["c9"] := by
   decide +kernel
@@ -311,8 +311,8 @@ example : (sysCfg rawBad envEx).node.minTtl = 1 ∧ (sysCfg rawBad envEx).node.m
     (sysCfg rawBad envEx).node.store.defaultTtl = 1 := by decide +kernel
 
 def histEx : List Op :=
-  [.store "c1" 2 none, .store "c2" 0 none, .ingest "c3" 1700001002000000000,
-   .announce "c2" 1700001004000000000 "p1" (List.replicate 31 1 ++ [2]) "10.0.0.9:4000" 99 none,
+  [.store "c1" 2 none, .store "c2" 0 none, .ingest "c3" 1700001002000000000 false,
+   .announce "c2" 1700001004000000000 false "p1" (List.replicate 31 1 ++ [2]) "10.0.0.9:4000" 99 none,
    .reannounce "c1" 4 none, .adv 2000000000, .lookup "c1", .probe "c2", .tick, .drain,
    .store "c1" 2 none, .adv 500000000, .store "c1" 2 none, .adv 3000000000, .tick, .drain]
 
@@ -334,7 +334,7 @@ example : (∀ op ∈ [Op.adv 10000000000, .lookup "c1", .tick], storesC "c1" op
     (Ttl.storeChunk rawEx 99999 t0Ex (t0Ex + envEx.wallOff)).chunk = 10000000000 := by decide +kernel
 
 /-- an accepted far-future manifest: key shares capped at `max_ttl` = 10 s after the arrival -/
-example : (C05.reach (sysCfg rawEx envEx) t0Ex [.ingest "c9" (1700001000000000000 + 315360000000000000)]).s.shards =
+example : (C05.reach (sysCfg rawEx envEx) t0Ex [.ingest "c9" (1700001000000000000 + 315360000000000000) false]).s.shards =
     [("c9", t0Ex + 10000000000)] := by decide +kernel
 
 /-- quiet operations after a cleanup keep the state empty; `Quiet` is inhabited by the interesting ones -/
